@@ -252,6 +252,26 @@ def run_recorded(ctx):
                                     "rand": rng.randbytes(64).hex(), "_zip": False, "_enc": ep, "_expect_ok": True, "_why": "from cek alg"}))
         ops.append(("jwe.enc_cek", {"jwe": {}, "cek": octk(E.CEKLEN[ep]), "pt": pts[4].hex(),
                                     "rand": rng.randbytes(64).hex(), "_zip": False, "_expect_ok": True, "_why": "from cek size"}))
+    # the same with a protected header that is already ENCODED (the form a caller holds after a first step): it still
+    # hides the unprotected header; an inferred enc goes to the shared unprotected header; zip inside it is applied;
+    # an unknown or ill-typed zip in the protected header (either form) refuses
+    for ep, eu in (("A256GCM", "A128GCM"), ("A128CBC-HS256", "A256GCM"), ("A128GCM", "A128GCM")):
+        base = {"pt": pts[4].hex(), "rand": rng.randbytes(64).hex(), "_zip": False}
+        ops.append(("jwe.enc_cek", dict(base, jwe={"protected": enc({"enc": ep}), "unprotected": {"enc": eu}}, cek=octk(E.CEKLEN[ep]), _enc=ep, _expect_ok=True,
+                                        _why="encoded prot %s / unprot %s" % (ep, eu))))
+        if E.CEKLEN[ep] != E.CEKLEN[eu]:
+            ops.append(("jwe.enc_cek", dict(base, jwe={"protected": enc({"enc": ep}), "unprotected": {"enc": eu}}, cek=octk(E.CEKLEN[eu]), _must_fail=True,
+                                            _why="encoded prot %s / unprot %s, key fits the unprotected one" % (ep, eu))))
+        ops.append(("jwe.enc_cek", dict(base, jwe={"protected": enc({"kid": "p"})}, cek=octk(E.CEKLEN[ep], alg=ep), _enc=ep, _expect_ok=True, _why="encoded prot without enc, cek alg " + ep)))
+        ops.append(("jwe.enc_cek", dict(base, jwe={"protected": enc({"kid": "p"}), "unprotected": {"kid": "u"}}, cek=octk(E.CEKLEN[ep]), _expect_ok=True, _why="encoded prot without enc, from cek size")))
+        ops.append(("jwe.enc_cek", dict(base, jwe={"protected": enc({"enc": ep, "zip": "DEF"})}, cek=octk(E.CEKLEN[ep]), pt=pts[5].hex(), _zip=True, _enc=ep, _expect_ok=True,
+                                        _why="encoded prot with zip")))
+    for zv in ("NOPE", "def", 5, None, ["DEF"]):
+        for form in (lambda o: o, enc):
+            ops.append(("jwe.enc_cek", {"jwe": {"protected": form({"enc": "A128GCM", "zip": zv})}, "cek": octk(16), "pt": pts[5].hex(), "rand": rng.randbytes(64).hex(),
+                                        "_zip": False, "_why": "protected zip %r" % (zv,), **({"_must_fail": True} if isinstance(zv, str) else {})}))
+            # (a zip member that is not a string names no compression: both directions then treat the content as not
+            #  compressed - the round trip below still has to hold)
     # zip named outside the protected header is not applied; inside it is
     for ce in E.ENCS:
         for where in ("unprotected", "none", "protected", "both"):
